@@ -121,3 +121,62 @@ ip.ensure("nets", lambda cx, result, prefix_i, ncwb, prefixlen: S.forall(0, resu
 ip.loop(0, lambda cx, k, v: z3.And(v.ipnets.n == k, S.forall(0, k, lambda u: v.ipnets.a[u] == Net.mk_net(NETADDR(u), S._t(v.prefixlen)))))
 ip.loop(1, lambda cx, k, v: z3.And(z3.ULE(S._t(v.prefix_i_), 0xFFFFFFFF),
                                    *[_bit(S._t(v.prefix_i_), c) == _spread_bit(v.ncwb, getattr(v, "__k0__"), c, k, S._t(v.prefix_i)) for c in range(32)]))
+
+
+# ---------------------------------------------------------------- Wildcard.line.fset: every derived value describes the new line
+IPNET_NONE = z3.Function("ipnet_is_none", z3.BitVecSort(BVW), z3.BitVecSort(BVW), z3.BoolSort())
+IPNET_VAL = z3.Function("ipnet_value", z3.BitVecSort(BVW), z3.BitVecSort(BVW), Net)
+
+il = contract("cisco_acl.helpers.init_line", dict(line=TStr), TStr, verify=False, props=("C05",),
+              note="returns the text with single spaces: the same whitespace-separated tokens (TypeError for non-strings): str.split/join, audited")
+il.may_raise("TypeError", None)
+il.ensure("tokens", lambda cx, result, line: z3.And(WS_LEN(S._t(result)) == WS_LEN(S._t(line)), WS_ARR(S._t(result)) == WS_ARR(S._t(line))))
+
+ci = contract("cisco_acl.wildcard.Wildcard._create_ipnet", dict(self=TObj("Wildcard")), TOpt(TNet), verify=False, props=("C05",),
+              note="dotted-quad text + IPv4Network parsing: bounded stand-in only; here: a function of the current _prefix/_wildmask")
+ci.ensure("function of the fields", lambda cx, result, self: z3.And(
+    result.isnone == IPNET_NONE(S._t(cx.get(self, "_prefix")), S._t(cx.get(self, "_wildmask"))),
+    S._t(result.val) == IPNET_VAL(S._t(cx.get(self, "_prefix")), S._t(cx.get(self, "_wildmask")))))
+
+WFIELDS = ["Wildcard._prefix", "Wildcard._wildmask", "Wildcard.ipnet", "Wildcard._ncwb", "Wildcard._prefixlen"]
+ls = contract("cisco_acl.wildcard.Wildcard.line.fset", dict(self=TObj("Wildcard"), line=TStr), None, props=("C05",), modifies=WFIELDS)
+ls.may_raise("TypeError", None)
+ls.may_raise("ValueError", None)
+
+
+def _derived_ok(cx, self, line):
+    w = S._t(cx.get(self, "_wildmask"))
+    p_ = S._t(cx.get(self, "_prefix"))
+    ncwb = cx.get(self, "_ncwb")
+    plen = S._t(cx.get(self, "_prefixlen"))
+    ipn_ = cx.get(self, "ipnet")
+    return [
+        ("mask", w == IP_PARSE(_tok(line, 1))),
+        ("prefix", p_ == (IP_PARSE(_tok(line, 0)) & ~IP_PARSE(_tok(line, 1)) & M32)),
+        ("ipnet", z3.And(ipn_.isnone == IPNET_NONE(p_, w), S._t(ipn_.val) == IPNET_VAL(p_, w))),
+        ("prefixlen", trailing(w, 32 - plen)),
+        ("ncwb.sound", S.forall(0, ncwb.n, lambda j: z3.And(32 - plen < S.at(ncwb, j), S.at(ncwb, j) < 32, BIT(w, S.at(ncwb, j))))),
+        ("ncwb.complete", S.forall_int(lambda q: z3.Implies(z3.And(32 - plen < q, q < 32, BIT(w, q)), S.mem_term(ncwb, q)))),
+        ("limit", ncwb.n <= S._t(cx.get(self, "_max_ncwb"))),
+    ]
+
+
+for _i, _lab in enumerate(["mask", "prefix", "ipnet", "prefixlen", "ncwb.sound", "ncwb.complete", "limit"]):
+    ls.ensure("describes the new line: " + _lab, lambda cx, result, self, line, _i=_i: _derived_ok(cx, self, line)[_i][1])
+
+
+def _unchanged(cx, self):
+    out = []
+    for k in WFIELDS:
+        f = k.split(".")[1]
+        a, b = cx.get(self, f), cx.old.get(self, f)
+        if hasattr(a, "n") and hasattr(a, "a"):
+            out += [a.n == b.n, a.a == b.a]
+        elif hasattr(a, "isnone"):
+            out += [a.isnone == b.isnone, S._t(a.val) == S._t(b.val)]
+        else:
+            out.append(S._t(a) == S._t(b))
+    return z3.And(*out)
+
+
+ls.ensure_on_raise("rejected line leaves the object unchanged", lambda cx, exc, self, line: _unchanged(cx, self))
